@@ -72,14 +72,21 @@ struct Cell {
     stmt: Statement,
     values: Vec<i64>,
     expect: Option<i64>,
+    /// positions read by the statement (always integers)
+    operands: Vec<usize>,
+    /// every second other live variable is an object (both of its temporaries are live)
+    objects: bool,
 }
 
 fn run_cell(acc: &mut Acc, c: &Cell) {
     acc.evaluations += 1;
-    let cfg = Config11 { isa: c.isa, window: 0, kinds: vec![Kind::Ext; c.p], map: vec![], share: vec![None; c.p] };
+    let kinds: Vec<Kind> = (0..c.p).map(|i| if c.objects && !c.operands.contains(&i) && i % 2 == 0 { Kind::Block } else { Kind::Ext }).collect();
+    let cfg = Config11 { isa: c.isa, window: 0, kinds: kinds.clone(), map: vec![], share: vec![None; c.p] };
     let mut plan = c11::plan(&cfg);
     for (i, v) in c.values.iter().enumerate() {
-        plan.init[i].1 = *v as u64;
+        if kinds[i] == Kind::Ext {
+            plan.init[i].1 = *v as u64;
+        }
     }
     let rj = || {
         J::obj()
@@ -130,6 +137,21 @@ fn run_cell(acc: &mut Acc, c: &Cell) {
         return;
     }
     for (i, v) in c.values.iter().enumerate() {
+        if kinds[i] == Kind::Block {
+            // an object: block pointer and tag must both survive the statement
+            let g1 = c11::read_temp(c.isa, &snap, i, TemporaryNumber::Fst);
+            let g2 = c11::read_temp(c.isa, &snap, i, TemporaryNumber::Snd);
+            if g1 != Some((plan.init[i].0, true)) || g2 != Some((plan.init[i].1, true)) {
+                acc.violation(
+                    format!("{}:matrix:object-lost", prop_of(c.isa)),
+                    format!("{} {} with {} live variables: the object at position {i} changed from ({:#x}, {:#x}) to ({:?}, {:?})", c11::ISA_NAMES[c.isa], c.what, c.p, plan.init[i].0, plan.init[i].1, g1, g2),
+                    rj(),
+                );
+                return;
+            }
+            acc.count("object_variables_checked");
+            continue;
+        }
         let g = c11::read_temp(c.isa, &snap, i, TemporaryNumber::Snd);
         if g != Some((*v as u64, true)) {
             acc.violation(
@@ -190,7 +212,7 @@ pub fn run(ctx: &Ctx, acc: &mut Acc, isa: usize) {
                         values[j] = if i == j { *a } else { *b };
                         let (x, y) = (values[i], values[j]);
                         let stmt = Statement::Op(Op { fst: var(i), op: op.clone(), snd: var(j), var: Identifier { name: "r".into(), id: 900 }, next: Rc::new(c11::stop_statement()), free_vars_next: None });
-                        let cell = Cell { isa, p, what: format!("r <- v{i} {op:?} v{j}"), stmt, values, expect: op_eval(op, x, y) };
+                        let cell = Cell { isa, p, what: format!("r <- v{i} {op:?} v{j}"), stmt, values, expect: op_eval(op, x, y), operands: vec![i, j], objects: k % 2 == 1 };
                         acc.count(&format!("op_{op:?}"));
                         run_cell(acc, &cell);
                     }
@@ -201,7 +223,7 @@ pub fn run(ctx: &Ctx, acc: &mut Acc, isa: usize) {
         for sort in &sorts {
             for i in 0..p {
                 for j in (0..p).map(Some).chain([None]) {
-                    for (a, b) in [(3i64, 5i64), (5, 3), (4, 4), (0, 0), (-1, 0), (i64::MIN, i64::MAX)] {
+                    for (k, (a, b)) in [(3i64, 5i64), (5, 3), (4, 4), (0, 0), (-1, 0), (i64::MIN, i64::MAX)].into_iter().enumerate() {
                         if !mine(&mut idx) {
                             continue;
                         }
@@ -217,7 +239,7 @@ pub fn run(ctx: &Ctx, acc: &mut Acc, isa: usize) {
                         let x = values[i];
                         let y = j.map(|j| values[j]).unwrap_or(0);
                         let stmt = Statement::IfC(IfC { sort: *sort, fst: var(i), snd: j.map(var), thenc: Rc::new(lit_then_stop(111, 901)), elsec: Rc::new(lit_then_stop(222, 902)) });
-                        let cell = Cell { isa, p, what: format!("if v{i} {sort:?} {} then 111 else 222", j.map(|j| format!("v{j}")).unwrap_or("0".into())), stmt, values, expect: Some(if cmp_eval(*sort, x, y) { 111 } else { 222 }) };
+                        let cell = Cell { isa, p, what: format!("if v{i} {sort:?} {} then 111 else 222", j.map(|j| format!("v{j}")).unwrap_or("0".into())), stmt, values, expect: Some(if cmp_eval(*sort, x, y) { 111 } else { 222 }), operands: j.into_iter().chain([i]).collect(), objects: k % 2 == 1 };
                         acc.count(if j.is_some() { "compare_two_operands" } else { "compare_with_zero" });
                         run_cell(acc, &cell);
                     }
@@ -234,7 +256,7 @@ pub fn run(ctx: &Ctx, acc: &mut Acc, isa: usize) {
                 break 'outer;
             }
             let values: Vec<i64> = (0..p).map(|x| 3000 + x as i64).collect();
-            let cell = Cell { isa, p, what: format!("lit r <- {v}"), stmt: lit_then_stop(v, 903), values, expect: Some(v) };
+            let cell = Cell { isa, p, what: format!("lit r <- {v}"), stmt: lit_then_stop(v, 903), values, expect: Some(v), operands: vec![], objects: idx % 2 == 1 };
             acc.count("literal");
             run_cell(acc, &cell);
         }
